@@ -253,6 +253,18 @@ def query_layer(ctx, sess):
             want = 'EXC:' + type(exc).__name__
         if out != want:
             ctx.record_violation('run-differs-from-typing-the-query', '.run %s: %r vs %r' % (name, out[:200], want[:200]))
+        # a statement typed after `.run NAME` is not affected by it (no default CLOSE left behind)
+        for typed in ('SELECT date, account, position FROM year >= 1900', 'SELECT count(*) AS n FROM year >= 1900 OPEN ON 1990-01-01'):
+            out, err = sess.run(typed)
+            ctx.evaluations += 1
+            ctx.count('typed-after-run')
+            try:
+                want = render_api(sess, typed)
+            except Exception as exc:  # noqa: BLE001
+                want = 'EXC:' + type(exc).__name__
+            if err.strip() or out != want:
+                ctx.record_violation('statement-after-run-differs-from-api-rendering', 'after .run %s: %s: shell %r ... api %r ... err %r' % (
+                    name, typed, out[:200], want[:200], err[:200]), payload={'query': typed})
     out, err = sess.run('.run nosuchquery')
     if 'not found' not in err or out:
         ctx.record_violation('run-unknown-query', 'out=%r err=%r' % (out, err))
